@@ -39,15 +39,28 @@ fn check(s: &Sharing, case: &mut Case) -> Result<(), Fail> {
     let p = s.assemble();
     super::c02::classes_of(&p, case);
     let pk = lib("build", || build(&p))?.map_err(|e| Fail::new("harness:build", e))?;
-    let u = ser_plain(&pk).map_err(|f| Fail::new("c03:plain-failed", f.msg))?;
-    let c = ser_compressed(&pk).map_err(|f| Fail::new("c03:compressed-failed", f.msg))?;
+    // the statement relates the compressed form to the plain one: a packet whose plain form is refused, does not
+    // parse or does not show the model is C02's business and makes no claim here
+    let u = match ser_plain(&pk) {
+        Ok(u) => u,
+        Err(_) => {
+            case.class("plain-form-refused:no-claim");
+            return Ok(());
+        }
+    };
     size_classes(&u, case);
+    let ou = match reparse(&u, "c03:plain-unparseable", "plain output") {
+        Ok(o) if o == p => o,
+        Ok(_) | Err(_) => {
+            case.class("plain-round-trip-fails:no-claim");
+            return Ok(());
+        }
+    };
+    let c = ser_compressed(&pk).map_err(|f| Fail::new("c03:compressed-failed", f.msg))?;
     case.nontrivial = c.len() < u.len();
     ensure!(c.len() <= u.len(), "c03:longer", "compressed output is {} bytes, plain {}", c.len(), u.len());
-    let ou = reparse(&u, "c03:plain-unparseable", "plain output")?;
     let oc = reparse(&c, "c03:compressed-unparseable", "compressed output")?;
-    ensure!(ou == p, "c03:plain-mismatch", "plain output parses differently from the model: {}", diff(&p, &ou));
-    ensure!(oc == p, "c03:compressed-mismatch", "compressed output parses differently from the model: {}", diff(&p, &oc));
+    ensure!(oc == ou, "c03:compressed-mismatch", "compressed output parses differently from the plain output: {}", diff(&ou, &oc));
     // the writer-based entry point on a stream that does not start at 0 (e.g. after a DNS-over-TCP length prefix)
     if s.filler_at % 4 == 1 {
         case.class("non-zero-origin");
@@ -57,7 +70,7 @@ fn check(s: &Sharing, case: &mut Case) -> Result<(), Fail> {
         lib("write_compressed_to", || pk.write_compressed_to(&mut cur))?.map_err(|e| Fail::new("c03:compressed-failed", format!("write_compressed_to at offset {}: {:?}", k, e)))?;
         let v = cur.into_inner();
         let ow = reparse(&v[k.min(v.len())..], "c03:compressed-unparseable@origin", "compressed output written at a non-zero stream offset")?;
-        ensure!(ow == p, "c03:compressed-mismatch@origin", "compressed output written at stream offset {} parses differently: {}", k, diff(&p, &ow));
+        ensure!(ow == ou, "c03:compressed-mismatch@origin", "compressed output written at stream offset {} parses differently from the plain output: {}", k, diff(&ou, &ow));
     }
     // and on a writer that accepts only a few bytes per call (any std::io::Write may do that)
     if s.filler_at % 4 == 2 && u.len() < 8192 {
@@ -67,7 +80,7 @@ fn check(s: &Sharing, case: &mut Case) -> Result<(), Fail> {
         lib("write_compressed_to", || pk.write_compressed_to(&mut w))?.map_err(|e| Fail::new("c03:compressed-failed", format!("write_compressed_to on a writer accepting {} bytes per call: {:?}", chunk, e)))?;
         let v = w.inner.into_inner();
         let ow = reparse(&v, "c03:compressed-unparseable@short-writes", "compressed output written through a short-write writer")?;
-        ensure!(ow == p, "c03:compressed-mismatch@short-writes", "compressed output written through a writer accepting {} bytes per call parses differently: {}", chunk, diff(&p, &ow));
+        ensure!(ow == ou, "c03:compressed-mismatch@short-writes", "compressed output written through a writer accepting {} bytes per call parses differently from the plain output: {}", chunk, diff(&ou, &ow));
     }
     Ok(())
 }
@@ -79,7 +92,7 @@ fn strategy(t: Tier) -> BoxedStrategy<Sharing> {
 pub fn def() -> CheckDef {
     CheckDef {
         id: "C03",
-        rule: "proptest: packets as in C02 whose owner, question and RDATA names come from suffix trees over a tiny label pool (constant sharing; pairs differing only in a leading or trailing label), with filler records that move later names just below / at / above offset 16383 and up to 65535 bytes; oracle observe(parse(compressed)) == observe(parse(plain)) == model and len(compressed) <= len(plain); a quarter of the cases also write the compressed form at a non-zero stream offset, another quarter through a writer accepting 1..3 bytes per call. Non-trivial = the compressed output is strictly shorter (at least one pointer emitted); classes report messages over 16 KiB and names first written above 16383 that repeat",
+        rule: "proptest: packets as in C02 whose owner, question and RDATA names come from suffix trees over a tiny label pool (constant sharing; pairs differing only in a leading or trailing label), with filler records that move later names just below / at / above offset 16383 and up to 65535 bytes; oracle observe(parse(compressed)) == observe(parse(plain)) and len(compressed) <= len(plain), claimed for packets whose plain form round-trips to the model (otherwise the defect is C02's and no claim is made here); a quarter of the cases also write the compressed form at a non-zero stream offset, another quarter through a writer accepting 1..3 bytes per call. Non-trivial = the compressed output is strictly shorter (at least one pointer emitted); classes report messages over 16 KiB and names first written above 16383 that repeat",
         assumptions: vec!["same exclusions as C02"],
         sections: vec![Box::new(PropSection { name: "transparent", rule: "compressed == plain == model", strategy, cases: (200_000, 1_500_000), check })],
     }
